@@ -580,10 +580,25 @@ type c14Env struct {
 	hasAcct map[int64]bool
 }
 
+// owners are party codes: entry + 1000*role + 100000*(optional), entry = account (+100 = upper-case
+// spelling), role 0 = OWNER, 1 = CUSTODIAN, 2 = INVESTOR (Metadata/Refs.v).
 type c14Scope struct {
 	id, spec   int64
 	owners, da []int64
+	rollup     bool
 }
+
+var c14Roles = []mdtypes.PartyType{mdtypes.PartyType_PARTY_TYPE_OWNER, mdtypes.PartyType_PARTY_TYPE_CUSTODIAN, mdtypes.PartyType_PARTY_TYPE_INVESTOR}
+
+func c14RoleID(t mdtypes.PartyType) int64 {
+	for i, x := range c14Roles {
+		if x == t {
+			return int64(i)
+		}
+	}
+	return 99
+}
+
 type c14Sess struct{ scope, uuid, spec int64 }
 type c14Rec struct{ scope, name, sess int64 }
 type c14SSpec struct {
@@ -690,7 +705,7 @@ func (e *c14Env) observe(ctx sdk.Context, ok bool) c14Obs {
 		}
 	}
 	must(k.IterateScopes(ctx, func(s mdtypes.Scope) bool {
-		sc := c14Scope{id: -1, spec: -1, da: e.aids(s.DataAccess)}
+		sc := c14Scope{id: -1, spec: -1, da: e.aids(s.DataAccess), rollup: s.RequirePartyRollup}
 		if len(s.ScopeId) == 17 {
 			sc.id = e.uid("scope", s.ScopeId[1:])
 		}
@@ -698,7 +713,14 @@ func (e *c14Env) observe(ctx sdk.Context, ok bool) c14Obs {
 			sc.spec = e.uid("sspec", s.SpecificationId[1:])
 		}
 		for _, p := range s.Owners {
-			sc.owners = append(sc.owners, e.aid(p.Address))
+			code := e.aid(p.Address)
+			if code > 0 {
+				code += 1000 * c14RoleID(p.Role)
+				if p.Optional {
+					code += 100000
+				}
+			}
+			sc.owners = append(sc.owners, code)
 		}
 		// the entry is reachable under the id its content names
 		if g, found := k.GetScope(ctx, s.ScopeId); !found || !g.ScopeId.Equals(s.ScopeId) {
@@ -881,7 +903,7 @@ func (l c14Loc) coq() string { return fmt.Sprintf("(%s, %s)", zI64(l.acct), zI64
 func (o c14Obs) coq() string {
 	var a, b, c, d, f, g, h []string
 	for _, s := range o.scopes {
-		a = append(a, fmt.Sprintf("Sc %s %s %s %s", zI64(s.id), zI64(s.spec), c14ZL(s.owners), c14ZL(s.da)))
+		a = append(a, fmt.Sprintf("ScR %s %s %s %s %s", zI64(s.id), zI64(s.spec), c14ZL(s.owners), c14ZL(s.da), coqBool(s.rollup)))
 	}
 	for _, s := range o.sess {
 		b = append(b, fmt.Sprintf("Se %s %s %s", zI64(s.scope), zI64(s.uuid), zI64(s.spec)))
@@ -1199,7 +1221,7 @@ func (e *c14Env) entryStr(id int64) string {
 func (e *c14Env) parties(ids []int64) []mdtypes.Party {
 	var out []mdtypes.Party
 	for _, id := range ids {
-		out = append(out, mdtypes.Party{Address: e.entryStr(id), Role: mdtypes.PartyType_PARTY_TYPE_OWNER})
+		out = append(out, mdtypes.Party{Address: e.entryStr(id % 1000), Role: c14Roles[(id/1000)%100], Optional: id >= 100000})
 	}
 	return out
 }
@@ -1232,7 +1254,7 @@ func respell(r *rand.Rand, l []int64) []int64 {
 }
 
 func (e *c14Env) mkScope(s c14Scope) mdtypes.Scope {
-	return mdtypes.Scope{ScopeId: e.scopeAddr(s.id), SpecificationId: e.sspecAddr(s.spec), Owners: e.parties(s.owners), DataAccess: e.strs(s.da)}
+	return mdtypes.Scope{ScopeId: e.scopeAddr(s.id), SpecificationId: e.sspecAddr(s.spec), Owners: e.parties(s.owners), DataAccess: e.strs(s.da), RequirePartyRollup: s.rollup}
 }
 func (e *c14Env) mkSession(s c14Sess, parties []int64) mdtypes.Session {
 	return mdtypes.Session{SessionId: e.sessAddr(s.scope, s.uuid), SpecificationId: e.cspecAddr(s.spec), Parties: e.parties(parties), Name: "sess"}
@@ -1285,7 +1307,7 @@ func (e *c14Env) msg(m c14VB) func(sdk.Context) error {
 // directed histories that replay the Coq witnesses on the real code)
 
 func c14ScopeTerm(s c14Scope) string {
-	return fmt.Sprintf("(Sc %s %s %s %s)", zI64(s.id), zI64(s.spec), c14ZL(s.owners), c14ZL(s.da))
+	return fmt.Sprintf("(ScR %s %s %s %s %s)", zI64(s.id), zI64(s.spec), c14ZL(s.owners), c14ZL(s.da), coqBool(s.rollup))
 }
 func c14SSpecTerm(s c14SSpec) string {
 	return fmt.Sprintf("(Ss %s %s %s)", zI64(s.id), c14ZL(s.owners), c14ZL(s.cspecs))
@@ -1498,16 +1520,61 @@ func (e *c14Env) genOp(r *rand.Rand, last c14Obs, step int, raw, msgOnly bool) c
 		}
 		return nil
 	}
-	genScope := func() c14Scope {
-		s := c14Scope{id: aimScope(), spec: aimSSpec(), owners: respell(r, subset(r, nA, false)), da: respell(r, subset(r, nA, true))}
+	genScope := func(viaMsg bool) c14Scope {
+		s := c14Scope{id: aimScope(), spec: aimSSpec(), owners: respell(r, subset(r, nA, false)), da: respell(r, subset(r, nA, true)), rollup: r.Intn(5) < 2}
 		if r.Intn(6) == 0 && len(s.da) > 0 { // duplicate data access entry
 			s.da = append(s.da, s.da[0])
 		}
-		switch r.Intn(25) { // owner lists that ValidatePartiesBasic rejects
+		// roles and optional flags: the first party stays a required-or-optional OWNER (every scope the
+		// harness writes has an OWNER party: the signer rules of roll-up scopes want one); the others
+		// get any role; sometimes the same address appears under a second role; optional parties
+		// mostly on roll-up scopes (elsewhere they make the scope invalid)
+		for i := range s.owners {
+			if i > 0 && r.Intn(2) == 0 {
+				s.owners[i] += 1000 * int64(1+r.Intn(2))
+			}
+			if (s.rollup && r.Intn(2) == 0) || r.Intn(40) == 0 {
+				s.owners[i] += 100000
+			}
+		}
+		if r.Intn(4) == 0 {
+			x := s.owners[r.Intn(len(s.owners))]
+			y := x%1000 + 1000*int64(1+r.Intn(2))
+			if s.rollup && r.Intn(2) == 0 {
+				y += 100000
+			}
+			if !has(s.owners, func(o int64) bool { return o%100000 == y%100000 }) {
+				s.owners = append(s.owners, y)
+			}
+		}
+		// an existing scope: often keep its parties and only flip optional flags / the roll-up flag
+		if old := scopeOf(s.id); old != nil && r.Intn(3) == 0 {
+			s.owners = append([]int64{}, old.owners...)
+			s.rollup = old.rollup || r.Intn(3) == 0
+			for i := range s.owners {
+				if s.rollup && r.Intn(2) == 0 {
+					s.owners[i] = s.owners[i]%100000 + 100000*int64(r.Intn(2))
+				}
+			}
+			if r.Intn(2) == 0 {
+				s.da = append([]int64{}, old.da...)
+			}
+		}
+		switch r.Intn(25) { // owner lists that ValidatePartiesBasic / validateRolesPresent reject
 		case 0:
-			s.owners = nil
+			if viaMsg {
+				s.owners = nil
+			}
 		case 1:
 			s.owners = append(s.owners, s.owners[0])
+		case 2:
+			if viaMsg {
+				for i := range s.owners { // no OWNER party at all
+					if (s.owners[i]/1000)%100 == 0 {
+						s.owners[i] += 1000
+					}
+				}
+			}
 		}
 		return s
 	}
@@ -1593,12 +1660,13 @@ func (e *c14Env) genOp(r *rand.Rand, last c14Obs, step int, raw, msgOnly bool) c
 	}
 	switch {
 	case sel < 12: // write scope
-		s := genScope()
+		viaMsg := useMsg || step == 7
+		s := genScope(viaMsg)
 		var mills uint64
 		if r.Intn(3) == 0 {
 			mills = uint64(1 + r.Intn(1000))
 		}
-		return e.opWriteScope(s, mills, useMsg || step == 7)
+		return e.opWriteScope(s, mills, viaMsg)
 	case sel < 18: // delete scope
 		return e.opDeleteScope(aimScope(), useMsg)
 	case sel < 23: // data access: one or two entries; mostly absent ones for add, present ones for delete
@@ -1636,8 +1704,13 @@ func (e *c14Env) genOp(r *rand.Rand, last c14Obs, step int, raw, msgOnly bool) c
 	case sel < 36: // write session
 		s := genSess()
 		owners := []int64{1}
-		if sc := scopeOf(s.scope); sc != nil && len(sc.owners) > 0 {
-			owners = sc.owners[:1]
+		if sc := scopeOf(s.scope); sc != nil { // an OWNER party of the scope (roll-up scopes: session parties must be scope owners)
+			for _, o := range sc.owners {
+				if (o/1000)%100 == 0 && o > 0 {
+					owners = []int64{o % 100000}
+					break
+				}
+			}
 		}
 		return e.opWriteSession(s, owners, raw && r.Intn(3) == 0)
 	case sel < 39: // remove session (keeper)
@@ -1700,10 +1773,19 @@ func (e *c14Env) genOp(r *rand.Rand, last c14Obs, step int, raw, msgOnly bool) c
 		n := 1 + r.Intn(2)
 		var l []int64
 		if r.Intn(2) == 0 {
+			same := func(list []int64, a int64) bool {
+				return has(list, func(o int64) bool { return o%100000 == a%100000 })
+			}
 			for tries := 0; len(l) < n && tries < 20; tries++ {
-				a := entry()
-				if (sc != nil && hasI64(sc.owners, a) || hasI64(l, a)) && r.Intn(6) > 0 {
+				a := entry() + 1000*int64(r.Intn(3))
+				if sc != nil && len(sc.owners) > 0 && r.Intn(4) == 0 { // an address that is already an owner, under another role
+					a = sc.owners[r.Intn(len(sc.owners))]%1000 + 1000*int64(r.Intn(3))
+				}
+				if (sc != nil && same(sc.owners, a) || same(l, a)) && r.Intn(6) > 0 {
 					continue
+				}
+				if (sc != nil && sc.rollup && r.Intn(2) == 0) || r.Intn(30) == 0 {
+					a += 100000
 				}
 				l = append(l, a)
 			}
@@ -1715,12 +1797,15 @@ func (e *c14Env) genOp(r *rand.Rand, last c14Obs, step int, raw, msgOnly bool) c
 		for len(l) < n {
 			a := entry()
 			if sc != nil && len(sc.owners) > 0 && r.Intn(6) > 0 {
-				a = sc.owners[r.Intn(len(sc.owners))]
+				a = sc.owners[r.Intn(len(sc.owners))] % 1000
 			}
 			l = append(l, a)
 		}
 		if sc != nil && r.Intn(10) == 0 { // every owner: must be refused
-			l = append([]int64{}, sc.owners...)
+			l = nil
+			for _, o := range sc.owners {
+				l = append(l, o%1000)
+			}
 		}
 		if r.Intn(20) == 0 {
 			l = nil
@@ -1749,7 +1834,7 @@ func (e *c14Env) genOp(r *rand.Rand, last c14Obs, step int, raw, msgOnly bool) c
 func (e *c14Env) witnesses() map[string][]c14Op {
 	sp := c14SSpec{1, []int64{1}, []int64{1}}
 	cs := c14CSpec{1, []int64{1}}
-	sc := c14Scope{1, 1, []int64{1}, nil}
+	sc := c14Scope{1, 1, []int64{1}, nil, false}
 	return map[string][]c14Op{
 		// a session whose contract specification is deleted, by messages only
 		"session_cspec": {e.opWriteCSpec(cs, true), e.opWriteSSpec(sp, true), e.opWriteScope(sc, 0, true), e.opWriteSession(c14Sess{1, 1, 1}, []int64{1}, false),
@@ -1760,15 +1845,20 @@ func (e *c14Env) witnesses() map[string][]c14Op {
 		// keeper RemoveContractSpecification leaves the record specifications
 		"rspec_orphan": {e.opWriteCSpec(cs, true), e.opWriteRSpec(c14RSpec{1, 3}, true), e.opDeleteCSpec(1, false)},
 		// raw writers: a scope without specification accepts data access but not owner changes
-		"raw_scope": {e.opWriteScope(c14Scope{1, 2, []int64{1}, nil}, 0, false), e.opAddDA(1, []int64{2}), e.opAddOwners(1, []int64{2})},
+		"raw_scope": {e.opWriteScope(c14Scope{1, 2, []int64{1}, nil, false}, 0, false), e.opAddDA(1, []int64{2}), e.opAddOwners(1, []int64{2})},
 		// a listed contract spec id is never re-checked
 		"raw_sspec": {e.opWriteSSpec(c14SSpec{1, []int64{1}, []int64{3}}, false), e.opWriteSSpec(c14SSpec{1, []int64{2}, []int64{3}}, true), e.opWriteSSpec(c14SSpec{2, []int64{2}, []int64{3}}, true)},
 		// keeper RemoveScope keeps the net asset values, MsgDeleteScope removes them
 		"keeper_remove_scope_keeps_nav": {e.opWriteCSpec(cs, true), e.opWriteSSpec(sp, true), e.opWriteScope(sc, 25, true), e.opSetNav(1, 1, 7), e.opDeleteScope(1, false),
 			e.opWriteScope(sc, 0, true), e.opDeleteScope(1, true)},
 		// owners and locators: the locator of an owner is listed once per spelling; deleting the scope keeps it
-		"locators": {e.opWriteCSpec(cs, true), e.opWriteSSpec(sp, true), e.opWriteScope(c14Scope{1, 1, []int64{1, 101}, nil}, 0, true), e.opBindLoc(1, 1, 0), e.opBindLoc(104, 2, 0),
+		"locators": {e.opWriteCSpec(cs, true), e.opWriteSSpec(sp, true), e.opWriteScope(c14Scope{1, 1, []int64{1, 101}, nil, false}, 0, true), e.opBindLoc(1, 1, 0), e.opBindLoc(104, 2, 0),
 			e.opAddOwners(1, []int64{2}), e.opBindLoc(102, 2, 0), e.opDelOwners(1, []int64{1}), e.opModLoc(1, 3, 0), e.opDeleteScope(1, true), e.opDelLoc(2, 0, 0)},
+		// party rollup: a required -> optional flip keeps the lookup entry; optional parties only with rollup; one address, several roles
+		"rollup": {e.opWriteCSpec(cs, true), e.opWriteSSpec(sp, true), e.opWriteScope(c14Scope{1, 1, []int64{1, 1002}, nil, true}, 0, true),
+			e.opWriteScope(c14Scope{1, 1, []int64{1, 101002}, nil, true}, 0, true), e.opWriteScope(c14Scope{1, 1, []int64{1, 101002}, nil, false}, 0, true),
+			e.opAddOwners(1, []int64{102003}), e.opAddOwners(1, []int64{103}), e.opAddOwners(1, []int64{102001}), e.opDelOwners(1, []int64{1}),
+			e.opWriteScope(c14Scope{2, 1, []int64{100001, 101004}, []int64{3}, true}, 0, true), e.opDelOwners(1, []int64{2, 3}), e.opDeleteScope(1, true)},
 		// the last owner cannot be removed; both spellings are different parties
 		"owners": {e.opWriteCSpec(cs, true), e.opWriteSSpec(sp, true), e.opWriteScope(sc, 0, true), e.opDelOwners(1, []int64{1}), e.opAddOwners(1, []int64{1}), e.opAddOwners(1, []int64{101, 3}),
 			e.opDelOwners(1, []int64{1, 3}), e.opDelOwners(1, []int64{101}), e.opAddOwners(1, []int64{2, 2})},
@@ -2004,7 +2094,13 @@ func (e *c14Env) play(w *CaseWriter, ctx sdk.Context, tag string, raw bool, next
 		denoms = append(denoms, []byte(d))
 	}
 	keys := e.storeKeys(ctx)
-	w.Add(fmt.Sprintf("Keys %s %s %s %s %s %s %s %s %s %s", coqBool(!raw), c14BL(u16(e.scopeU)), c14BL(u16(e.sessU)), c14BL(u16(e.sspecU)), c14BL(u16(e.cspecU)),
+	sg := true // no raw scope / specification writer, no bare keeper RemoveContractSpecification
+	for _, k := range kinds {
+		if k == "KSetScope" || k == "KSetSSpec" || k == "KSetRSpec" || k == "KRemoveCSpec" {
+			sg = false
+		}
+	}
+	w.Add(fmt.Sprintf("Keys %s %s %s %s %s %s %s %s %s %s %s", coqBool(!raw), coqBool(sg), c14BL(u16(e.scopeU)), c14BL(u16(e.sessU)), c14BL(u16(e.sspecU)), c14BL(u16(e.cspecU)),
 		c14BL(names), c14BL(accts), c14BL(denoms), coqList(opTerms), coqList(keys)),
 		map[string]any{"kind": "keys", "tag": tag, "raw": raw, "ops": kinds, "keys": len(keys)})
 	w.Count("keys_cases")
@@ -2037,6 +2133,35 @@ func c14HistoryStream(t *testing.T, w *CaseWriter, r *rand.Rand) {
 			})
 			w.Count("histories_witness")
 		}
+	}
+	// one scripted history per run: a contract specification with more than 100 record specifications
+	// (names r001...), others next to it, deleted by message, re-created under the same id
+	{
+		e := c14NewEnv(app, r)
+		n := 101 + r.Intn(50)
+		for i := 1; i <= n; i++ {
+			name := fmt.Sprintf("r%03d", i)
+			e.names = append(e.names, name)
+			e.nameID[name] = int64(len(e.names))
+		}
+		base0 := int64(len(e.names) - n)
+		ops := []c14Op{e.opWriteCSpec(c14CSpec{1, []int64{1}}, true), e.opWriteCSpec(c14CSpec{2, []int64{2}}, true),
+			e.opWriteRSpec(c14RSpec{2, 1}, true), e.opWriteRSpec(c14RSpec{2, base0 + 1}, true)}
+		for _, i := range r.Perm(n) {
+			ops = append(ops, e.opWriteRSpec(c14RSpec{1, base0 + int64(i+1)}, true))
+		}
+		ops = append(ops, e.opWriteRSpec(c14RSpec{2, base0 + 2}, true), e.opDeleteCSpec(1, true), e.opWriteCSpec(c14CSpec{1, []int64{101}}, true),
+			e.opWriteRSpec(c14RSpec{1, base0 + 5}, true), e.opDeleteCSpec(2, true))
+		ctx, _ := base.CacheContext()
+		e.prepare(ctx)
+		e.play(w, ctx, "many_record_specs", false, func(s int, _ c14Obs) (c14Op, bool) {
+			if s >= len(ops) {
+				return c14Op{}, false
+			}
+			return ops[s], true
+		})
+		w.Count("histories_many_record_specs")
+		w.CountN("many_record_specs_n", int64(n))
 	}
 	nHist := scale(140, 2500)
 	for hI := 0; hI < nHist; hI++ {
